@@ -422,6 +422,7 @@ func (g *exprGen) gen2(depth int, underCmp bool, underBin bool) *XExpr {
 type XPoint struct {
 	Vals  map[string]int64 `json:"vals"`
 	Conds []bool           `json:"conds"`
+	tag   int
 }
 
 func genPoint(r *rand.Rand, fields []string) XPoint {
